@@ -615,6 +615,10 @@ def run_config(task):
     return out
 
 
+def run_batch(tasks):
+    return [run_config(t) for t in tasks]
+
+
 NEED = ("write", "write-partial", "write-beyond-depth", "write-disabled", "read-capture", "read-hold", "read-beyond-depth",
         "transparent-new-data", "non-transparent-old-data", "comb-read", "comb-read-beyond-depth", "tb-set",
         "read-hold:domain-reset-asserted", "read-capture:domain-reset-asserted", "two-writers-one-row-disjoint-granules",
@@ -623,9 +627,9 @@ NEED = ("write", "write-partial", "write-beyond-depth", "write-disabled", "read-
 
 
 def configs(rep):
-    """quick: <= 3 ports, budget 2000, depth 0..4, reset none/sync (+ async reset on small single-port memories);
+    """quick: <= 3 ports, budget 1500, depth 0..4, reset none/sync (+ async reset on small single-port memories);
     thorough: <= 3 ports, budget 30000, depth 0..5, reset none/sync/async, plus 2 write + 2 read ports up to budget 6000"""
-    budget = rep.pick(2_000, 30_000)
+    budget = rep.pick(1_500, 30_000)
     g = grid(budget, depths=range(0, 5) if rep.quick else range(0, 6), rst_modes=(0, 1) if rep.quick else (0, 1, 2))
     if rep.quick:
         g += grid(1_500, depths=(2, 3), max_ports=1, rst_modes=(2,))
@@ -640,13 +644,21 @@ def configs(rep):
 
 
 def run(rep):
+    # import the library once in the parent: the forked workers then share it instead of importing it 16 times
+    import amaranth.hdl, amaranth.sim, amaranth.lib.memory, amaranth.lib.data, amaranth.back.rtlil  # noqa: F401
+    from ..rtlil import parse as _p, interp as _i  # noqa: F401
+    import gc
+    gc.freeze()          # keep the collector from touching (and so copying) the parent's pages in every forked worker
     cfgs, budget = configs(rep)
     cfgs.sort(key=lambda c: -c[1])
     replay_n = rep.pick(4, 12)
-    tasks = rotate([(c, replay_n) for c, _cost in cfgs], rep.seed)
+    tasks = [(c, replay_n) for c, _cost in cfgs]
+    # many small graphs: deal them (largest first) into a few batches per worker to keep the pool's traffic low
+    nb = max(1, min(len(tasks), rep.procs * 4))
+    batches = rotate([tasks[i::nb] for i in range(nb)], rep.seed)
     allflags = set()
     shapes, depths = set(), set()
-    for r in pmap(run_config, tasks, rep.procs, chunksize=2):
+    for r in (r for batch in pmap(run_batch, batches, rep.procs) for r in batch):
         rep.add("states", r["states"])
         rep.add("transitions", r["transitions"])
         rep.add("traces_validated_against_impl", r["validated"])
